@@ -2,6 +2,7 @@
 // Exhaustive product: meshes x rigid motions x scalings x node/face permutations x input windings, against a reference
 // computed in long double about the mesh's own centre (and, for integer meshes, against the exact integer volume).
 #include "sc3d.hpp"
+#include "local_mesh_refiner.hpp"
 using namespace vf;
 
 struct Variant { int mesh; int rot; int trans; int scale; int nperm; int fperm; unsigned long wind; int windkind; int extra = 0; /* 1 / 2: an unreferenced node (a free slot from the start) stored first / last */ };
@@ -76,6 +77,24 @@ static std::string check(const Variant& v, Metrics* out = nullptr, double* worst
 static std::string vtext(const Variant& v) { std::ostringstream o; o << v.mesh << " " << v.rot << " " << v.trans << " " << v.scale << " " << v.nperm << " " << v.fperm << " " << v.wind << " " << v.windkind << " " << v.extra; return o.str(); }
 static std::string vjson(const Variant& v) { std::ostringstream o; o << "{\"mesh\":\"" << g_meshes[v.mesh].name << "\",\"rotation\":" << v.rot << ",\"translation_in_sizes\":[" << g_trans[v.trans][0] << "," << g_trans[v.trans][1] << "," << g_trans[v.trans][2] << "],\"scale\":" << jnum(g_scales[v.scale]) << ",\"node_perm\":" << v.nperm << ",\"face_perm\":" << v.fperm << ",\"winding_kind\":" << v.windkind << ",\"winding_mask\":" << v.wind << "}"; return o.str(); }
 
+// a living cell: real edge collapses / splits in one of four orders, no rebase; the getters must describe the live surface.  Returns "", "skip" (the history is not applicable to this mesh) or the violated clause
+static std::string check_living(int mi, int ti, int hist) {
+        const sc::Mesh& base = g_meshes[mi]; const double size = mesh_size(base); std::array<double, 3> t = {g_trans[ti][0] * size, g_trans[ti][1] * size, g_trans[ti][2] * size};
+        sc::Mesh m = sc::transformed(base, g_rots.back(), t, 1.0); auto c = std::make_shared<cell>(m.pos, m.tri, 0u); c->initialize_cell_properties(); local_mesh_refiner lmr(1e-9 * size, 1e9 * size, true);
+        auto merge_one = [&](bool highest) { std::optional<edge> pick; unsigned best = highest ? 0 : ~0u; for (const edge& e0 : c->get_edge_set()) { edge e = e0; bool can = false; try { can = lmr.can_be_merged(e, c); } catch (...) {} if (!can) continue; unsigned lo = std::min(e0.n1(), e0.n2()); if (highest ? lo >= best : lo <= best) { best = lo; pick = e0; } } if (!pick) return false; edge e = *pick; edge_set es = c->get_edge_set(); try { lmr.merge_edge(e, c, es); } catch (...) { return false; } return true; };
+        auto split_one = [&]() { edge e = *c->get_edge_set().begin(); edge_set es = c->get_edge_set(); try { lmr.split_edge(e, c, es); } catch (...) {} };
+        bool ok = true; switch (hist) { case 0: ok = merge_one(false); break; case 1: ok = merge_one(true) && merge_one(false); break; case 2: split_one(); ok = merge_one(true); break; default: ok = merge_one(false) && merge_one(false); split_one(); }
+        if (!ok || c->get_nb_of_nodes() == c->node_lst_.size() || !sc::oracle_mesh(*c, [] { sc::OracleOpts o; o.check_cached_geometry = false; o.flat_is_error = false; return o; }()).empty()) { c->clear_data(); return "skip"; }
+        c->update_all_face_normals_and_areas(); c->area_ = c->compute_area(); c->volume_ = c->compute_volume(); sc::Geom g = sc::geom_of(*c); char buf[300]; std::string e;
+        const double tmag = std::fabs(g_trans[ti][0]) * size, ctol = 1e-9 * size + 1e-13 * tmag; vec3 cen = c->compute_centroid(); auto bb = c->get_aabb();
+        if (!(std::fabs(c->get_volume() - (double)g.vol) <= (1e-9 + 2.3e-16 * (std::fabs(g_trans[ti][0]) + 1) * 40) * (double)g.vol)) { snprintf(buf, sizeof buf, "volume-differs-from-enclosed-volume: living cell reports %.17g, live triangles enclose %.17g", c->get_volume(), (double)g.vol); e = buf; }
+        else if (!(std::fabs(c->get_area() - (double)g.area) <= 1e-9 * (double)g.area)) { snprintf(buf, sizeof buf, "area-differs-from-sum-of-triangle-areas: living cell reports %.17g reference %.17g", c->get_area(), (double)g.area); e = buf; }
+        else if (std::fabs(cen.dx() - (double)g.cx) > ctol || std::fabs(cen.dy() - (double)g.cy) > ctol || std::fabs(cen.dz() - (double)g.cz) > ctol) { snprintf(buf, sizeof buf, "centroid-differs-from-area-weighted-mean: living cell reports (%.17g,%.17g,%.17g)", cen.dx(), cen.dy(), cen.dz()); e = buf; }
+        else for (int k = 0; k < 6; k++) if (bb[k] != g.box[k]) { snprintf(buf, sizeof buf, "bounding-box-not-tight: living cell, component %d reported %.17g reference %.17g", k, bb[k], g.box[k]); e = buf; break; }
+        c->clear_data();
+        return e;
+}
+
 static void report(Result& R, const Variant& v, const std::string& err) {
     std::string where = v.trans == 0 ? "at-origin" : (std::fabs(g_trans[v.trans][0]) >= 1000 ? "far-from-origin" : "near-origin");
     R.violation(clause_of(err) + "|" + where, err + " [" + vjson(v) + "]", "case=" + vtext(v) + "\n");
@@ -115,6 +134,11 @@ static void explore(Result& R) {
     for (int mi = 0; mi < (int)g_meshes.size() && !R.out_of_time(0.9); mi++) for (int ri = 0; ri < (int)g_rots.size(); ri += 2) for (int ti = 0; ti < (int)g_trans.size(); ti++) for (int ex = 1; ex <= 2; ex++) for (int wk = 0; wk < 2; wk++) {
         Variant v{mi, ri, ti, 0, 0, 0, 0, wk, ex}; std::string e = check(v, nullptr, &worst_vol); evals++; distinct++; tab["free_slot_from_the_start"]++;
         if (e.rfind("INTERNAL", 0) == 0) { R.internal_error = e; return; } if (!e.empty()) report(R, v, e); }
+    // Block D: living cells: after real edge collapses / splits (free node and face slots anywhere in the lists, no rebase) the getters still describe the live surface
+    { long living = 0; for (int mi = 1; mi < (int)g_meshes.size() && !R.out_of_time(0.9); mi++) for (int ti = 0; ti < (int)g_trans.size(); ti++) for (int hist = 0; hist < 4; hist++) {
+        std::string e = check_living(mi, ti, hist); if (e == "skip") continue; evals++; distinct++; living++; tab["living_cells_with_free_slots"]++;
+        if (!e.empty()) R.violation(clause_of(e) + "|living-cell", e + " [mesh " + g_meshes[mi].name + ", translation index " + std::to_string(ti) + ", remeshing history " + std::to_string(hist) + "]", "mode=living\nmesh=" + std::to_string(mi) + "\ntrans=" + std::to_string(ti) + "\nhist=" + std::to_string(hist) + "\n"); }
+      if (!living && R.violations.empty()) R.internal_error = "no living cell with free slots was produced (vacuous)"; }
     if (R.out_of_time(0.9)) R.cap("deadline");
     R["evaluations"] = evals; R["transitions"] = evals; R["states"] = distinct; R["distinct_nontrivial"] = distinct; R["traces_validated_against_impl"] = evals;
     R["meshes"] = g_meshes.size(); R["motions"] = g_rots.size() * g_trans.size() * g_scales.size();
@@ -125,6 +149,7 @@ static void explore(Result& R) {
 
 static int replay(const Replay& rp, Result& R) {
     setup(rp.get("tier", "quick") == "thorough");   // the index tables depend on the tier the case came from
+    if (rp.get("mode") == "living") { std::string a = check_living((int)rp.geti("mesh"), (int)rp.geti("trans"), (int)rp.geti("hist")), b = check_living((int)rp.geti("mesh"), (int)rp.geti("trans"), (int)rp.geti("hist")); if (a != b) { printf("replay diverged\n"); return 0; } printf("%s\n", a.c_str()); if (!a.empty() && a != "skip") { R.violation(clause_of(a), a, ""); return 1; } return 0; }
     Variant v; std::istringstream i(rp.get("case")); i >> v.mesh >> v.rot >> v.trans >> v.scale >> v.nperm >> v.fperm >> v.wind >> v.windkind; if (!(i >> v.extra)) v.extra = 0;
     std::string e1 = check(v), e2 = check(v); if (e1 != e2) { printf("replay diverged\n"); return 0; }
     printf("case %s\n%s\n", vjson(v).c_str(), e1.c_str());
